@@ -332,6 +332,9 @@ class SymBool:
     @property
     def __class__(self):
         return NPCLS.get("bool_", type(self))
+    @property
+    def dtype(self):
+        return NPCLS["dtype_of"](self)
 
     def __init__(self, e):
         self.e = e if z3.is_expr(e) else z3.BoolVal(bool(e))
@@ -444,6 +447,9 @@ class SymI64:
     @property
     def __class__(self):
         return NPCLS.get("int64", type(self))
+    @property
+    def dtype(self):
+        return NPCLS["dtype_of"](self)
 
     def __init__(self, e):
         self.e = e if z3.is_expr(e) else z3.BitVecVal(int(e), 64)
@@ -524,6 +530,9 @@ class SymF64:
     @property
     def __class__(self):
         return NPCLS.get("float64", type(self))
+    @property
+    def dtype(self):
+        return NPCLS["dtype_of"](self)
 
     def __init__(self, e):
         self.e = e if z3.is_expr(e) else fpval(e)
@@ -604,6 +613,9 @@ class SymDT:
     @property
     def __class__(self):
         return NPCLS.get("datetime64", type(self))
+    @property
+    def dtype(self):
+        return NPCLS["dtype_of"](self)
 
     def __init__(self, e, unit):
         self.e = e if z3.is_expr(e) else z3.BitVecVal(int(e), 64)
@@ -657,6 +669,9 @@ class SymTD:
     @property
     def __class__(self):
         return NPCLS.get("timedelta64", type(self))
+    @property
+    def dtype(self):
+        return NPCLS["dtype_of"](self)
 
     def __init__(self, e, unit="generic"):
         self.e = e if z3.is_expr(e) else z3.BitVecVal(int(e), 64)
